@@ -199,7 +199,7 @@ theorem RW_dataset {ds : Dataset} (hwf : WFData ds) (p : Params) (hmw : 0 ≤ p.
         [] (routerLookup ds.egress p.maxEgress) (-1) p.time) (ds.connSetOf (ds.scenarioOf p)).rev := by
   have hsub := connSetOf_rev_sub ds (ds.scenarioOf p)
   have hw := timeWF_dataset hwf p hmw hmt (ds.scenarioOf p) [] (routerLookup ds.egress p.maxEgress) (-1) p.time
-  refine ⟨?_, hw.depMono, hw.arrMono, ?_, hw.footNonneg, ?_, hmw, ?_, ?_, rfl⟩
+  refine ⟨?_, hw.depMono, hw.arrMono, ?_, hw.footNonneg, ?_, hmw, ?_, ?_⟩
   · intro c hc; exact hpos c (hsub c hc)
   · intro a ha b hb; exact conns_unique hwf.toWFSchedule a (hsub a ha) b (hsub b hb)
   · intro c hc
@@ -273,7 +273,7 @@ theorem C09_complete (ds : Dataset) (hwf : WFData ds) (p : Params) (hp : p.forwa
           have heP : e ∈ cx.cs.rev.drop start := hin e he (by omega)
           have hxP : x ∈ cx.cs.rev.drop start := hin x hx (by omega)
           rw [← hminW] at hlim ⊢
-          have hacc := hC.acc e heP x hxP ⟨hcu, hdis, t, hrP, hrt⟩ htrip hseq hcb (by omega)
+          have hacc := hC.acc e heP x hxP ⟨hcu, hdis, t, hrP, hrt⟩ htrip hseq hcb (Or.inl (by rw [← hcx]; rfl)) (by omega)
           have hxr : e.depStop ∈ List.range (ds.restrict (ds.connSetOf (ds.scenarioOf p))).nStops := by
             show e.depStop ∈ List.range ds.nStops
             have : e ∈ (ds.connSetOf (ds.scenarioOf p)).rev := by rw [← hcs]; exact he
